@@ -303,6 +303,15 @@ func (x *Exec) runTop() {
 		x.frameObligations(fr, penv, exit)
 	}
 	x.cover("cover:exit", exit.Guard, "some execution reaches a return under the preconditions and invariants")
+	if !x.discover && len(x.obls) > 0 && x.replayIn != nil {
+		// inputs and outputs of the merged exit state: used by the translator-conformance
+		// self-test (zconform.go), which runs the real function on a model of this state
+		if exitOut == nil {
+			exitOut = x.replayOutputs(fn, exit, rets)
+		}
+		last := x.obls[len(x.obls)-1]
+		last.Replay = &ReplayInfo{Fn: fn, In: x.replayIn, Out: exitOut, StrConsts: x.S.strConsts, BV: x.mode == ModeBV, PrePrefix: x.replayPre}
+	}
 	// must-fail canary: the negation of the first postcondition must not be provable
 	canaryIdx := -1
 	for k, en := range ct.Ensures {
